@@ -6,7 +6,7 @@ from props.polycases import P, W, coef, poly, grp, sc, zeros
 
 ID = "C07"
 GEN_TAGS = ["PolyGen"]
-PROOF_TARGETS = ["proofs/PolyCoreProofs.vo"]
+PROOF_TARGETS = ["proofs/PolyCoreProofs.vo", "proofs/PolyC07Wrap.vo", "proofs/PolyValueSem.vo"]
 PROPS_FILE = "props/C07.v"
 EXTRACT = "extract/ExtractC07.vo"
 ORACLE = ("gen_c07", "c07.ml")
@@ -23,12 +23,16 @@ TRUSTED = [
     "generator (tools/props/c07.py, polycases.py)",
     "modelled by hand, tied by correspondence only (coq/model/PolyCore.v): every function of the multiplication family and the "
     "basic Polynomial API (raw coefficient lists as stored)",
-    "ntt/intt are parameters of the model; the theorems about fast_multiply / fast_square / fast_pow / multiply above the "
-    "threshold assume, as Section hypotheses matching the C06 theorems, that ntt is the DFT at a primitive root of the "
-    "power-of-two length and intt its inverse; the oracle runs a recursive radix-2 transform (model/PolyNttStub.v) until "
-    "model/Ntt.v is wired in",
-    "field operations: the theorems are stated over an abstract field K with the `field_ok`-style hypotheses relating the "
-    "model's operations record to K (discharged for BFieldElement by C01; XFieldElement by the lead's instance)",
+    "ntt/intt are parameters of the model; the theorems about fast_multiply / fast_square / square / fast_pow / multiply / "
+    "batch_multiply / par_batch_multiply take the C06 statements as hypotheses (ntt_ok / intt_ok / roots_ok in "
+    "proofs/PolyC07Wrap.v: ntt is the DFT at a primitive 2^l-th root for l <= lmax, intt its inverse). For "
+    "Polynomial<BFieldElement> the hypotheses are DISCHARGED from the C06 theorems (C07_bfe_*: ntt_b_is_dft, intt_b_is_idft, "
+    "roots_exact_order, lmax = 31); for XFieldElement and the mixed products they remain hypotheses until the extension-field "
+    "instance of field_ok and of the NTT homomorphism is provided. The oracle runs model/Ntt.v (the C06 mirror of ntt.rs)",
+    "field operations: the theorems are stated over an abstract field K with `field_ok o fk ok den` (lib/FieldTheory.v) relating "
+    "the model's operations record to K; instance for BFieldElement: proofs/BFieldOk.v (C01); XFieldElement: lead's instance",
+    "extraction directives in coq/extract/ExtractC07.v: Z.pow / Z.log2 / Z.testbit mapped to zarith (11x faster field "
+    "operations in the oracle)",
     "rayon: par_chunks(..).map(f).collect() is modelled as map f over the chunks (order preserved, closures pure); the thread "
     "count read from available_parallelism() is an explicit parameter, theorems hold for every count >= 1; validated by "
     "running the harness under RAYON_NUM_THREADS and taskset settings",
